@@ -10,6 +10,19 @@ Regenerates how the size candidates of a calldata reach -- and stay in -- the pa
       self.candidates.update({d.size_symbol: d.size_choices for d in dyn_params})  (same)
       self.candidates.clear()                                                    (reset)
       if not dyn_params: return      /  pass                                     (no-ops)
+* `SEVM.calldataload`: the decision made on the loaded word            -> gen_calldataload
+      loaded = ex.calldata().get_word(offset)
+      if is_expr_var(loaded):
+          <c> = <substitution>.get(loaded)
+          if <c> is not None: loaded = <c>                  (reads as the fixed constant)
+          elif loaded in <candidates>:
+              for <cand> in <candidates>[loaded]:            (one successor per candidate:
+                  new = self.create_branch(ex, loaded == <cand>, ex.pc)   condition, candidate pushed)
+                  new.st.push_any(<cand>); new.advance(); stack.push(new)
+              return
+      ex.st.push_any(loaded); ex.advance(); stack.push(ex)  (the word itself, one successor)
+  The if/elif chain is translated arm by arm in source order (so an arm tested earlier wins, as in
+  Python); logging calls are ignored; anything else raises.
 * `Path.process_dyn_params` must forward to the concretization;
 * what a new path gets as its concretization: `Path.__init__` (empty), `Path.branch`
   (`path.concretization = <copy of self.concretization>`) and `Path.extend_path`
@@ -137,6 +150,95 @@ def _single_assign(fn, target):
     return found[0].value
 
 
+SUBST = "ex.path.concretization.substitution"
+CANDS = "ex.path.concretization.candidates"
+LOGGING = ("debug", "debug_once", "info", "warn")
+
+
+def _drop_logging(stmts):
+    return [x for x in stmts if not (isinstance(x, ast.Expr) and isinstance(x.value, ast.Call)
+                                     and isinstance(x.value.func, ast.Name) and x.value.func.id in LOGGING)]
+
+
+def _u(node):
+    return ast.unparse(node)
+
+
+def tr_calldataload(fn):
+    """-> Gallina body of gen_calldataload (continuations fixed/branch/same) and a description"""
+    body = _drop_logging(strip_docstring(fn.body))
+    if len(body) != 6:
+        _fail(fn, f"calldataload: {len(body)} statements, the modelled shape has 6")
+    s_off, s_load, s_if, s_push, s_adv, s_stack = body
+    if not (isinstance(s_off, (ast.Assign, ast.AnnAssign)) and "ex.st.pop()" in _u(s_off.value)):
+        _fail(s_off, "calldataload: the offset is not popped from the stack")
+    off = _u(s_off.target if isinstance(s_off, ast.AnnAssign) else s_off.targets[0])
+    if not (isinstance(s_load, ast.Assign) and len(s_load.targets) == 1 and isinstance(s_load.targets[0], ast.Name)
+            and _u(s_load.value) == f"ex.calldata().get_word({off})"):
+        _fail(s_load, "calldataload: the word is not ex.calldata().get_word(offset)")
+    w = s_load.targets[0].id
+    if [_u(s_push), _u(s_adv), _u(s_stack)] != [f"ex.st.push_any({w})", "ex.advance()", "stack.push(ex)"]:
+        _fail(s_push, "calldataload: the fall-through does not push the word and continue with the same state")
+    if not (isinstance(s_if, ast.If) and not s_if.orelse and _u(s_if.test) == f"is_expr_var({w})"):
+        _fail(s_if, "calldataload: the size-symbol handling is not guarded by is_expr_var(word)")
+    inner = _drop_logging(s_if.body)
+    if len(inner) != 2 or not isinstance(inner[0], ast.Assign) or not isinstance(inner[1], ast.If):
+        _fail(s_if, "calldataload: expected `<c> = substitution.get(word)` followed by one if/elif chain")
+    binds = {}
+    a = inner[0]
+    if len(a.targets) == 1 and isinstance(a.targets[0], ast.Name) and _u(a.value) == f"{SUBST}.get({w})":
+        binds[a.targets[0].id] = "sub"
+    else:
+        _fail(a, "calldataload: expected the lookup of the word in the substitution")
+    # the chain, arm by arm
+    arms, node = [], inner[1]
+    while True:
+        arms.append((node.test, _drop_logging(node.body)))
+        if len(node.orelse) == 1 and isinstance(node.orelse[0], ast.If):
+            node = node.orelse[0]
+        elif not node.orelse:
+            break
+        else:
+            _fail(node, "calldataload: the chain ends with an else arm")
+    desc = []
+
+    def arm_expr(test, stmts, rest):
+        t = _u(test)
+        cvar = next((v for v in binds if t == f"{v} is not None"), None)
+        if cvar is not None:
+            guard = ("sub", "Some z")
+        elif t == f"{w} in {CANDS}":
+            guard = ("cs", "Some l")
+        else:
+            _fail(test, "calldataload: unsupported test in the chain")
+        # the arm
+        if len(stmts) == 1 and isinstance(stmts[0], ast.Assign) and _u(stmts[0]) == f"{w} = {cvar}" and guard[0] == "sub":
+            act = "fixed z"   # falls through to the final push of the (now constant) word
+            desc.append("fixed")
+        elif len(stmts) == 2 and isinstance(stmts[0], ast.For) and isinstance(stmts[1], ast.Return) and stmts[1].value is None and guard[0] == "cs":
+            loop = stmts[0]
+            if loop.orelse or not isinstance(loop.target, ast.Name) or _u(loop.iter) != f"{CANDS}[{w}]":
+                _fail(loop, "calldataload: the loop is not over the candidates of the word")
+            c = loop.target.id
+            lb = _drop_logging(loop.body)
+            if len(lb) != 4 or not (isinstance(lb[0], ast.Assign) and len(lb[0].targets) == 1 and isinstance(lb[0].targets[0], ast.Name)):
+                _fail(loop, "calldataload: unexpected loop body")
+            n = lb[0].targets[0].id
+            if [_u(lb[0].value), _u(lb[1]), _u(lb[2]), _u(lb[3])] != [f"self.create_branch(ex, {w} == {c}, ex.pc)", f"{n}.st.push_any({c})", f"{n}.advance()", f"stack.push({n})"]:
+                _fail(loop, "calldataload: a successor is not (branch on word == candidate, push the candidate, advance, onto the work list)")
+            act = "branch l"
+            desc.append("branch")
+        else:
+            _fail(test, "calldataload: unsupported arm")
+        return f"match {guard[0]} with {guard[1]} => {act} | None => {rest} end"
+
+    expr = "same"
+    for test, stmts in reversed(arms):
+        expr = arm_expr(test, stmts, expr)
+    desc.reverse()
+    return f"if is_var then {expr} else same", desc
+
+
 def translate(src_text):
     tree = ast.parse(src_text)
     info = {}
@@ -158,6 +260,8 @@ def translate(src_text):
     reads = sorted({ast.unparse(n) for n in ast.walk(cl) if isinstance(n, ast.Attribute) and n.attr in ("candidates", "substitution")})
     if reads != ["ex.path.concretization.candidates", "ex.path.concretization.substitution"]:
         raise TranslateError(f"SEVM.calldataload: reads {reads}, expected the candidates and the substitution of ex.path.concretization")
+
+    g_load, info["calldataload"] = tr_calldataload(cl)
 
     # Path.process_dyn_params forwards
     pf = find_function(tree, "process_dyn_params", cls="Path")
@@ -188,6 +292,12 @@ def translate(src_text):
         "(* Concretization.process_dyn_params: ds = [(size symbol, size choices)], m = self.candidates *)",
         "Definition gen_process_dyn_params (ds : list (nat * list nat)) (m : list (nat * list nat)) : list (nat * list nat) :=",
         f"  {body}.",
+        "",
+        "(* SEVM.calldataload: what happens to the loaded word, given whether it is a symbol, its entry in the substitution",
+        "   and its entry in the candidates *)",
+        "Definition gen_calldataload {B : Type} (is_var : bool) (sub : option Z) (cs : option (list nat))",
+        "    (fixed : Z -> B) (branch : list nat -> B) (same : B) : B :=",
+        f"  {g_load}.",
         "",
         "(* the concretization (substitution, candidates) of the path made by Path.branch / of a path after extend_path *)",
         "Definition gen_branch_conc (subst : list (nat * Z)) (cands : list (nat * list nat)) : list (nat * Z) * list (nat * list nat) :=",
